@@ -13,7 +13,7 @@ import FuelVerif.Lemmas.SparseZipper
 namespace FuelVerif.SmtRefine
 open FuelVerif FuelVerif.SmtStore FuelVerif.SmtBytes FuelVerif.Gen.Sparse FuelVerif.Smt
 
-variable (H : Bytes → Bytes) (hok : HashOK H) {σ : Type} (S : StoreOps σ)
+variable (H : Bytes → Bytes) {U : T → Prop} (hok : HashOn H U) {σ : Type} (S : StoreOps σ)
 
 /-! ### `path_set` in zipper form -/
 
@@ -89,34 +89,44 @@ theorem mem_spineH {c : T} {fs : List Frame} {h : Bytes} :
   simp [spineH]
 
 /-- the path nodes have pairwise different hashes (strictly nested trees) -/
-theorem spineH_nodup : ∀ (fs : List Frame) (c : T), (spineH H hok c fs).Nodup
-  | [], _ => by simp [spineH, spineT]
-  | f :: fs, c => by
+theorem spineH_nodup : ∀ (fs : List Frame) (c : T), (∀ u, IsSub u (plug c fs) → U u) →
+    (spineH H hok c fs).Nodup
+  | [], _, _ => by simp [spineH, spineT]
+  | f :: fs, c, hU => by
     show (hb H hok (f.plug c) :: spineH H hok (f.plug c) fs).Nodup
-    refine List.nodup_cons.mpr ⟨?_, spineH_nodup fs (f.plug c)⟩
+    refine List.nodup_cons.mpr ⟨?_, spineH_nodup fs (f.plug c) hU⟩
     intro hm
     obtain ⟨u, hu, e⟩ := (mem_spineH H hok).mp hm
-    rw [hb_injective H hok e] at hu
+    have h1 : U u := hU u (spineT_spec fs (f.plug c) u hu).1
+    have h2 : U (f.plug c) := hU _ (isSub_plug fs _ _ (IsSub.refl (plug1_ne_empty f c)))
+    rw [hb_injective H hok h1 h2 e] at hu
     exact spineT_head_not_mem f fs c hu
 
 /-- in a canonical tree the hashes of the path nodes occur neither in the focus nor in any sibling -/
-theorem spineH_fresh {fs : List Frame} {c : T} {d0 : Nat} (hc : Canon bit32 width d0 (plug c fs)) :
+theorem spineH_fresh {fs : List Frame} {c : T} {d0 : Nat} (hc : Canon bit32 width d0 (plug c fs))
+    (hU : ∀ u, IsSub u (plug c fs) → U u) :
     ∀ h ∈ spineH H hok c fs, h ∉ hashesOf H hok c ∧ ∀ g ∈ fs, h ∉ hashesOf H hok g.sib := by
   intro h hm
   obtain ⟨u, hu, e⟩ := (mem_spineH H hok).mp hm
   subst e
-  exact ⟨not_mem_hashesOf H hok (spineT_not_sub_focus hu),
-    fun g hg => not_mem_hashesOf H hok (spine_not_in_sib fs c d0 hc u hu g hg)⟩
+  have hUu : U u := hU u (spineT_spec fs c u hu).1
+  exact ⟨not_mem_hashesOf H hok hUu (fun x hx => hU x (isSub_plug fs c x hx)) (spineT_not_sub_focus hu),
+    fun g hg => not_mem_hashesOf H hok hUu (fun x hx => hU x (isSub_plug_sib fs c x g hg hx))
+      (spine_not_in_sib fs c d0 hc u hu g hg)⟩
 
 /-- the hash of a non-empty focus does not occur in any sibling -/
 theorem focus_fresh {fs : List Frame} {c : T} {d0 : Nat} (hc : Canon bit32 width d0 (plug c fs))
+    (hU : ∀ u, IsSub u (plug c fs) → U u)
     (hne : c ≠ .empty) : ∀ g ∈ fs, hb H hok c ∉ hashesOf H hok g.sib :=
-  fun g hg => not_mem_hashesOf H hok (sub_not_in_sib fs c d0 hc c (IsSub.refl hne) g hg)
+  fun g hg => not_mem_hashesOf H hok (hU c (isSub_plug fs c c (IsSub.refl hne)))
+    (fun x hx => hU x (isSub_plug_sib fs c x g hg hx))
+    (sub_not_in_sib fs c d0 hc c (IsSub.refl hne) g hg)
 
 /-- **old path nodes against the new tree**: if the new focus `c` contains a subtree `x` that the old tree
 does not contain, and every subtree of `c` is a leaf or contains `x`, then no old path node occurs anywhere in
 the new tree -/
 theorem old_spine_fresh {fs : List Frame} {c0 c : T} {d0 : Nat} (hc0 : Canon bit32 width d0 (plug c0 fs))
+    (hU0 : ∀ u, IsSub u (plug c0 fs) → U u) (hU : ∀ u, IsSub u (plug c fs) → U u)
     (x : T) (hx : IsSub x c) (hnx : ¬ IsSub x (plug c0 fs))
     (hcsub : ∀ u, IsSub u c → (∃ k v, u = .leaf k v) ∨ IsSub x u) :
     ∀ h ∈ spineH H hok c0 fs,
@@ -125,14 +135,16 @@ theorem old_spine_fresh {fs : List Frame} {c0 c : T} {d0 : Nat} (hc0 : Canon bit
   obtain ⟨o, ho, e⟩ := (mem_spineH H hok).mp hm
   subst e
   obtain ⟨ho1, _, _, l, r, ho4⟩ := spineT_spec fs c0 o ho
-  refine ⟨?_, ?_, fun g hg => not_mem_hashesOf H hok (spine_not_in_sib fs c0 d0 hc0 o ho g hg)⟩
+  have hUo : U o := hU0 o ho1
+  refine ⟨?_, ?_, fun g hg => not_mem_hashesOf H hok hUo (fun x hx => hU0 x (isSub_plug_sib fs c0 x g hg hx))
+    (spine_not_in_sib fs c0 d0 hc0 o ho g hg)⟩
   · intro hm2
     obtain ⟨u, hu, e⟩ := (mem_spineH H hok).mp hm2
-    rw [hb_injective H hok e] at hu
+    rw [hb_injective H hok (hU u (spineT_spec fs c u hu).1) hUo e] at hu
     exact hnx (IsSub.trans ((spineT_spec fs c o hu).2.2.1 x hx) ho1)
   · intro hm2
     obtain ⟨u, hu, e⟩ := mem_hashesOf H hok hm2
-    rw [hb_injective H hok e] at hu
+    rw [hb_injective H hok (hU u (isSub_plug fs c u hu)) hUo e] at hu
     rcases hcsub o hu with ⟨k, v, e2⟩ | hxo
     · rw [ho4] at e2; cases e2
     · exact hnx (IsSub.trans hxo ho1)
@@ -154,10 +166,20 @@ def SibNe : T → List Frame → Prop
   | c0, f :: fs => hb H hok c0 ≠ hb H hok f.sib ∧ SibNe (f.plug c0) fs
 
 theorem sibNe_of_canon : ∀ (fs : List Frame) (c0 : T) (d0 : Nat), Canon bit32 width d0 (plug c0 fs) →
-    SibNe H hok c0 fs
-  | [], _, _, _ => trivial
-  | f :: fs, c0, d0, hc =>
-    ⟨fun e => canon_frame_ne (canon_plug_cons hc) (hb_injective H hok e), sibNe_of_canon fs (f.plug c0) d0 hc⟩
+    (∀ u, IsSub u (plug c0 fs) → U u) → SibNe H hok c0 fs
+  | [], _, _, _, _ => trivial
+  | f :: fs, c0, d0, hc, hU => by
+    refine ⟨fun e => canon_frame_ne (canon_plug_cons hc) ?_, sibNe_of_canon fs (f.plug c0) d0 hc hU⟩
+    have hUn : ∀ u, IsSub u (f.plug c0) → U u := fun u hu => hU u (isSub_plug fs _ u hu)
+    have h1 : c0 = .empty ∨ IsSub c0 (f.plug c0) := by
+      by_cases e0 : c0 = .empty
+      · exact .inl e0
+      · exact .inr (isSub_plug1 (IsSub.refl e0))
+    have h2 : f.sib = .empty ∨ IsSub f.sib (f.plug c0) := by
+      by_cases e0 : f.sib = .empty
+      · exact .inl e0
+      · exact .inr (isSub_plug1_sib (IsSub.refl e0))
+    exact hb_inj_sub H hok hUn hUn h1 h2 e
 
 theorem mergeSides_cons (rm : Bool) (s : Bytes) (sides : List Bytes) (p : Node) (parents : List Node)
     (cur : Node) (st : σ) :
@@ -326,6 +348,7 @@ theorem stored_plug {st : σ} : ∀ (fs : List Frame) (c : T) (d0 : Nat),
 
 /-- **the store after the loop holds the re-plugged tree** -/
 theorem stored_mergeStore (rm : Bool) (fs : List Frame) (c0 c : T) (d0 : Nat) (st : σ)
+    (hU : ∀ u, IsSub u (plug c fs) → U u)
     (hS : ∀ h ∈ spineH H hok c fs, h ∉ hashesOf H hok c ∧ ∀ g ∈ fs, h ∉ hashesOf H hok g.sib)
     (hO : rm = true → ∀ h ∈ spineH H hok c0 fs,
       h ∉ spineH H hok c fs ∧ h ∉ hashesOf H hok c ∧ ∀ g ∈ fs, h ∉ hashesOf H hok g.sib)
@@ -335,7 +358,7 @@ theorem stored_mergeStore (rm : Bool) (fs : List Frame) (c0 c : T) (d0 : Nat) (s
   refine ⟨?_, ?_, ?_⟩
   · exact stored_congr H hok S hc (fun h hm => mergeStore_frame H hok S laws rm fs c0 c d0 st h
       (fun hin => (hS h hin).1 hm) (fun e hin => (hO e h hin).2.1 hm))
-  · exact mergeStore_new H hok S laws rm fs c0 c d0 st (spineH_nodup H hok fs c)
+  · exact mergeStore_new H hok S laws rm fs c0 c d0 st (spineH_nodup H hok fs c hU)
       (fun e h hm => (hO e h hm).1)
   · exact sibsStored_congr H hok S fs hs (fun g hg h hm => mergeStore_frame H hok S laws rm fs c0 c d0 st h
       (fun hin => (hS h hin).2 g hg hm) (fun e hin => (hO e h hin).2.2 g hg hm))
